@@ -90,6 +90,7 @@ def run(F, rep, tier):
     r4 = rep.rule("R08.4", "an omitted optional trailing argument is passed as null by both wrappers at the same argument index")
     r5 = rep.rule("R08.5", "named parameter -> core argument index agrees with positional index under the specification's parameter order")
     units_rule(F, rep)
+    slice_end_rule(F, rep)
     adt = F.adts.get(BIF)
     if adt is None:
         rep.missing_anchor(r1, BIF)
@@ -344,3 +345,48 @@ def units_rule(F, rep):
     if not any(v["rule"] == rid for v in rep.violations):
         rep.ok(rid, "units", "%d unit-bearing operations in bifs::core, none mixes bytes and characters" % nsrc)
     rep.floor(rid, "unit-bearing operations (slices, chars() steps, arithmetic on lengths/offsets)", nsrc, 8)
+
+
+def slice_end_rule(F, rep):
+    """R08.7: `items[first..last]` is valid for every last <= len. Where a built-in guards such a slice by comparing its (exclusive) end with the
+    length of the sliced collection, the comparison must be non-strict: `last < len` rejects the sub-list / sub-string that ends at the last element,
+    which is inside the function's domain."""
+    import g1_panic
+    rid = rep.rule("R08.7", "built-ins that guard a range slice by its end compare `end <= len`, not `end < len` (a result ending at the last element is in the domain)")
+    n = 0
+    for name in sorted(F.bodies):
+        if not name.startswith("dmntk_feel_evaluator::bifs::core::"):
+            continue
+        A = g1_panic.Analyzer(F, name)
+        k = 0
+        for s in g1_panic.collect_sites(F, name):
+            if s.kind != "call" or "::index" not in s.what or not s.ops or len(s.ops) < 2:
+                continue
+            rg = A.range_operand(s.ops[1])
+            if not rg or rg[2] != "Range" or rg[1] is None:
+                continue
+            hi = rg[1]
+            coll = A.operand_root(s.ops[0])
+            verdict = None
+            for f in A.facts_at(s.block, stale_ok=True):
+                if f[0] != "cmp":
+                    continue
+                op, x, y = f[1], f[2], f[3]
+                if y == hi and x[0] == "len":
+                    op, x, y = g1_panic.FLIP[op], y, x
+                if x == hi and y[0] == "len" and A.base_of(y[1]) == A.base_of(coll):
+                    if op == "<=":
+                        verdict = verdict or "ok"
+                    elif op == "<":
+                        verdict = "strict"
+            if verdict is None:
+                continue
+            n += 1
+            key = "%s:slice-end#%d" % (name.split("::")[-1], k)
+            k += 1
+            if verdict == "ok":
+                rep.ok(rid, key, "end <= len")
+            else:
+                rep.violation(rid, key, "%s guards the slice at line %s with `end < len`: a result that ends at the last element is rejected (returns null inside the function's domain)"
+                              % (name.split("::")[-1], s.line), "%s:%s" % (F.bodies[name]["file"], s.line))
+    rep.floor(rid, "range slices guarded by their end", n, 2)
